@@ -101,3 +101,28 @@ func Harness_C25_huge()                 { c25Check(c25Shapes["huge"], false) }
 func Harness_C25_ping_pong()            { c25Check(c25Shapes["ping_pong"], false) }
 func Harness_C25_twelve_accounts()      { c25Check(c25Shapes["twelve_accounts"], false) }
 func Harness_C25_twelve_accounts_force() { c25Check(c25Shapes["twelve_accounts"], true) }
+
+
+// symbolic amounts: the same account/asset patterns, every amount an unbounded
+// symbolic integer >= 0 (a fresh one per posting, so equal and different amounts
+// are both covered: TxToScriptData shares one variable between equal monetaries).
+func symAmounts(ps []ledger.Posting) []ledger.Posting {
+	out := make([]ledger.Posting, len(ps))
+	for i, p := range ps {
+		amt := nondetBig("amount")
+		verifAssume(amt.Sign() >= 0)
+		out[i] = ledger.Posting{Source: p.Source, Destination: p.Destination, Asset: p.Asset, Amount: amt}
+	}
+	return out
+}
+
+func Harness_C25S_single()              { c25Check(symAmounts(c25Shapes["single"]), false) }
+func Harness_C25S_single_force()        { c25Check(symAmounts(c25Shapes["single"]), true) }
+func Harness_C25S_received_then_spent() { c25Check(symAmounts(c25Shapes["received_then_spent"]), false) }
+func Harness_C25S_two_from_same()       { c25Check(symAmounts(c25Shapes["two_from_same"]), false) }
+func Harness_C25S_self()                { c25Check(symAmounts(c25Shapes["self"]), false) }
+func Harness_C25S_duplicate()           { c25Check(symAmounts(c25Shapes["duplicate"]), false) }
+func Harness_C25S_two_assets()          { c25Check(symAmounts(c25Shapes["two_assets"]), false) }
+func Harness_C25S_to_world()            { c25Check(symAmounts(c25Shapes["to_world"]), false) }
+func Harness_C25S_ping_pong()           { c25Check(symAmounts(c25Shapes["ping_pong"]), false) }
+func Harness_C25S_ping_pong_force()     { c25Check(symAmounts(c25Shapes["ping_pong"]), true) }
